@@ -134,6 +134,27 @@ theorem C08_output_state_never_clean (cfg : Cfg) (st : OutSt) (n : Name) (as : L
       obtain ⟨w', hw⟩ := dropWritten_clean h
       exact handleElem_never_clean cfg n as rs1 prog inv w' hw
 
+/-- **what `Serve` returns does not depend on the state of the output**: in every state — also
+after a handler wrote only a start tag, or after the local side closed the stream — the peer's
+closing tag makes `Serve` return nil … -/
+theorem C08_peer_close_any_output_state (cfg : Cfg) (fuel : Nat) (st : OutSt) (rest : List Tok)
+    (a : Nat) (progs : List Prog) :
+    serveFC cfg (fuel + 1) st false { inp := .stop ⟨nsStream, "stream"⟩ :: rest, dIn := a, dOut := 0, sticky := none } progs
+      = { invs := [], written := [], result := .clean } := by
+  simp [serveFC, handleInputStreamC, handleInputStream, RS.next, verdict, nsStream]
+
+/-- … and a received stream error is returned as that error, a comment as the comment error
+(and likewise every other top-level construct, by `C08_stream_level_any_output_state`) -/
+theorem C08_constructs_any_output_state (cfg : Cfg) (fuel : Nat) (st : OutSt) (as : List Attr) (rest : List Tok)
+    (c : String) (hc : closes 0 rest = true) (hcond : seCond rest = some c) (cm : String) (progs : List Prog) :
+    (serveFC cfg (fuel + 1) st false
+        { inp := .start ⟨nsStream, "error"⟩ as :: rest, dIn := 0, dOut := 0, sticky := none } progs).result
+      = .error (.streamError c) ∧
+    (serveFC cfg (fuel + 1) st false
+        { inp := .comment cm :: rest, dIn := 0, dOut := 0, sticky := none } progs).result
+      = .error .comment := by
+  constructor <;> simp [serveFC, handleInputStreamC, handleInputStream, RS.next, verdict, nsStream, hc, hcond]
+
 /-- `SetCloseDeadline` with a time in the future changes nothing: the session is served exactly
 as if the deadline had never been set (one invocation per element, nil on the peer's closing
 tag, …), for every state of the output -/
